@@ -478,16 +478,17 @@ def c19_jobs(tier):
     jobs = [_job("periodic", "cm=%d" % cm, {"cm": cm, "nmax": 16 if q else 40, "unwind": 3 if q else 5},
                  w=cm, deadline=3000) for cm in range(1, (3 if q else 4) + 1)]
     # many RAM units (the closed form uses float factorial quotients): shorter n range
-    for cm in ((8,) if q else (6, 10, 16, 24)):
-        jobs.append(_job("periodic", "cm=%d" % cm, {"cm": cm, "nmax": 14 if q else 30, "unwind": 2 if q else 3},
-                         w=cm * 2, deadline=3000))
+    # (the period grows like C(cm+T, T), and with it the symbolic Revolve tables: the unwinding
+    # bound T shrinks as cm grows; measured 2-90 s per job)
+    for cm, nmax, T in (((8, 14, 2),) if q else ((6, 30, 3), (8, 30, 3), (10, 24, 2), (16, 24, 1), (24, 30, 1))):
+        jobs.append(_job("periodic", "cm=%d" % cm, {"cm": cm, "nmax": nmax, "unwind": T}, w=cm * 2, deadline=1500))
     return jobs
 
 
 PROPS["C19"] = {
     "fatal": ["C19."], "jobs": c19_jobs,
     "bounds": lambda tier: {"ram units": [1, 3 if tier == "quick" else 4], "n": [1, 16 if tier == "quick" else 40],
-                            "many RAM units": "cm=8, n<=14, T=2" if tier == "quick" else "cm in {6,10,16,24}, n<=30, T=3",
+                            "many RAM units": "cm=8, n<=14, T=2" if tier == "quick" else "(cm, n<=, T) in {(6,30,3), (8,30,3), (10,24,2), (16,24,1), (24,30,1)}",
                             "costs": "symbolic reals with (wd+rd) < C(cm+1+T,T)*uf, T=%d" % (3 if tier == "quick" else 5)},
     "outside": ["cost ratios beyond the unwinding bound", "n beyond the bound", "IEEE rounding of (wd+rd)/uf"],
     "trusted": ["Aupy & Herrmann (2017) closed form, transcribed in oracles.m_AH", "Griewank & Walther (2000)", "z3"],
